@@ -299,6 +299,8 @@ def run(check, an: Analysis):
                      'under the three orderings of clock and date')
     check.rule('L7', 'optional dates are tested with `is None`')
     check.rule('L8', 'absolute dates reach the loop unchanged; no delay is derived from them')
+    check.rule('L9', 'a timed wait that is abandoned leaves no activation behind: suspend/'
+                     'postpone withdraw their wake-up on every exit (rule shared with C03)')
     an.cls(LOOP)
 
     # ---- L1 -----------------------------------------------------------------
@@ -410,6 +412,11 @@ def run(check, an: Analysis):
                    % n_activity)
     # ---- L7 -----------------------------------------------------------------
     _check_optional_dates(check, an)
+    # ---- L9 -----------------------------------------------------------------
+    from . import _scope, c03
+    c03._check_signal_lifecycles(
+        check, an, _scope.wrapper_callee(an), rule='L9',
+        only=lambda fn, cls: fn.cls is None and fn.module.name == 'usim._primitives.notification')
     check.stats.update(an.stats())
 
 
@@ -637,6 +644,12 @@ def _clock_as_symbol(expr, fn):
                 return ast.Name(id=NOW, ctx=ast.Load())
             return self.generic_visit(node)
 
+        def visit_Call(self, node):
+            # the clock read through its getter (`time._now()`)
+            if rules.is_clock_call(node, fn):
+                return ast.Name(id=NOW, ctx=ast.Load())
+            return self.generic_visit(node)
+
         def visit_Name(self, node):
             if isinstance(node.ctx, ast.Load) and node.id != NOW and fn is not None and \
                     rules.is_current_time(node, fn):
@@ -722,7 +735,7 @@ def _invariant(an, fn, owner, expr, kind, depth):
                 reached = 0
                 for path in an.paths(ccallee):
                     for index, event in enumerate(path.events):
-                        if event.node is ccall and event.kind in ('call', 'enter'):
+                        if rules.is_site(event.node, ccall) and event.kind in ('call', 'enter'):
                             reached += 1
                             good &= _established(an, path, index, expr, kind, cfn, cowner,
                                                  text) is not None
@@ -748,7 +761,7 @@ def _classify(an, callee, call, kind, expr, depth):
     for path in paths:
         seen_here = False
         for index, event in enumerate(path.events):
-            if event.node is not call or event.kind not in ('call', 'enter') or seen_here:
+            if not rules.is_site(event.node, call) or event.kind not in ('call', 'enter') or seen_here:
                 continue
             seen_here = True
             reached += 1
@@ -970,7 +983,7 @@ def _check_plumbing(check, an: Analysis):
         forms = {}
         for path in an.paths(callee):
             for index, event in enumerate(path.events):
-                if event.node is call and event.kind == 'call':
+                if rules.is_site(event.node, call) and event.kind == 'call':
                     for kw in dated:
                         forms.setdefault(kw.arg, set()).add(
                             rules.value_text(path, index, kw.value))
